@@ -70,7 +70,7 @@ CLAIMED = {
     "C14": {
         "engine": "string",
         "technique": "Coq proof (well-formed UTF-8 closed under concatenation and splitting at char boundaries; lossy chunk iterator invariant; generated obligation on the width table) + differential execution against std::string::String and the extracted model",
-        "text": "C14_split_at_boundary / C14_concat / C14_truncate / C14_insert_str / C14_split_off / C14_remove / C14_replace_range / C14_from_utf8 / C14_lossy_chunk / C14_lossy_valid / C14_lossy_identity / C14_encode_wellformed / C14_decode_encode / C14_push / C14_insert / C14_insert_panics_off_boundary / C14_retain / C14_retain_all_is_identity / C14_pop / C14_from_utf16_valid / C14_from_utf16_roundtrip / C14_source_decoder (the loop body of the lossy decoder, parsed from lossy.rs on every run, decides like the model on every byte string) / C14_from_utf16_exact (the model of from_utf16_in accepts exactly well-formed UTF-16 and yields the UTF-8 of the same scalar values) / C14_lossy_is_maximal_subpart_repair (for every byte string the decoder's output equals an implementation-independent specification: each maximal subpart of an ill-formed sequence becomes one U+FFFD; the extracted specification is also compared with std's output on every swept input). Every generated program (18 operation kinds at every byte index, all range forms, 1-4 byte characters, panicking retain predicates) runs on bumpalo's String and std's String with a UTF-8 validity check after every operation; the decoders are compared with std on all byte strings up to length 2 (and through the model), a sweep of length 3, structured ill-formed input, and all single UTF-16 units plus structured pairs. The lead-byte width table is read back from the built crate on every run. UTF-16 texts (boundary units alone, in pairs and triples, random surrogate-heavy texts) go to the extracted model, the implementation and std. C14_encode_decode / C14_extend / C14_extend_by_text / C14_push_str. Source tie of the byte moves: C14_source_remove / C14_source_insert_bytes / C14_source_pop_truncate / C14_source_drain_bounds / C14_source_frames (the arguments String::remove, insert_bytes, pop and truncate pass to ptr::copy and set_len, and the boundary assertions in front of them, parsed from string.rs on every run) and C14_remove_assembled_from_source / C14_insert_assembled_from_source / C14_truncate_assembled_from_source / C14_remove_by_memmove / C14_insert_by_memmove (those moves done to a buffer give the model's result, for every text, index and spare capacity). Partial: the items a drain yields, format!/write_fmt and trait forwarding are decided by the differential only.",
+        "text": "C14_split_at_boundary / C14_concat / C14_truncate / C14_insert_str / C14_split_off / C14_remove / C14_replace_range / C14_from_utf8 / C14_lossy_chunk / C14_lossy_valid / C14_lossy_identity / C14_encode_wellformed / C14_decode_encode / C14_push / C14_insert / C14_insert_panics_off_boundary / C14_retain / C14_retain_all_is_identity / C14_pop / C14_from_utf16_valid / C14_from_utf16_roundtrip / C14_source_decoder (the loop body of the lossy decoder, parsed from lossy.rs on every run, decides like the model on every byte string) / C14_from_utf16_exact (the model of from_utf16_in accepts exactly well-formed UTF-16 and yields the UTF-8 of the same scalar values) / C14_lossy_is_maximal_subpart_repair (for every byte string the decoder's output equals an implementation-independent specification: each maximal subpart of an ill-formed sequence becomes one U+FFFD; the extracted specification is also compared with std's output on every swept input). Every generated program (18 operation kinds at every byte index, all range forms, 1-4 byte characters, panicking retain predicates) runs on bumpalo's String and std's String with a UTF-8 validity check after every operation; the decoders are compared with std on all byte strings up to length 2 (and through the model), a sweep of length 3, structured ill-formed input, and all single UTF-16 units plus structured pairs. The lead-byte width table is read back from the built crate on every run. UTF-16 texts (boundary units alone, in pairs and triples, random surrogate-heavy texts) go to the extracted model, the implementation and std. C14_encode_decode / C14_extend / C14_extend_by_text / C14_push_str. Source tie of the byte moves: C14_source_remove / C14_source_insert_bytes / C14_source_pop_truncate / C14_source_drain_bounds / C14_source_frames (the arguments String::remove, insert_bytes, pop and truncate pass to ptr::copy and set_len, and the boundary assertions in front of them, parsed from string.rs on every run) and C14_remove_assembled_from_source / C14_insert_assembled_from_source / C14_truncate_assembled_from_source / C14_remove_by_memmove / C14_insert_by_memmove (those moves done to a buffer give the model's result, for every text, index and spare capacity). Partial: the items a drain yields, format!/write_fmt and trait forwarding are decided by the differential only. C14_retain_loop_is_model (the buffer-level loop of String::retain computes s_retain for every script of non-panicking answers).",
         "design_ref": "DESIGN.md §6 C14",
     },
     "C15": {
@@ -82,7 +82,7 @@ CLAIMED = {
     "C16": {
         "engine": "vec",
         "technique": "Coq proof (loop invariant of DrainFilter::next + permutation conservation under arbitrary panic positions; truncate with panicking destructors) + drop-ledger driver enumerating panic points",
-        "text": "C16_drain_filter_no_double_drop / C16_drain_filter_nodup / C16_truncate_panicking_drop hold for every answer script (a panic at any predicate invocation, any number of items taken by the caller). The driver panics predicates, Clone, Drop and iterators at random invocation indices and checks: no identity twice, nothing dropped reachable, exact final drop. Partial: dedup_by/resize/extend/String::retain/Box are decided on the implementation only.",
+        "text": "C16_drain_filter_no_double_drop / C16_drain_filter_nodup / C16_truncate_panicking_drop hold for every answer script (a panic at any predicate invocation, any number of items taken by the caller). The driver panics predicates, Clone, Drop and iterators at random invocation indices and checks: no identity twice, nothing dropped reachable, exact final drop. Partial: dedup_by/resize/extend/String::retain/Box are decided on the implementation only. C16_string_retain_panic_safe (StringRetain.v: the loop of String::retain at buffer level with its length guard; for every valid text and every script of keep/delete/panic answers the string after unwinding holds exactly the characters kept so far, valid UTF-8) with C16_source_string_retain / C16_source_string_retain_frames (the guard's new length, the move test and the memmove arguments parsed from string.rs on every run; the surrounding statements pinned); the checker steps every retain with a panicking predicate through the extracted retain_run.",
         "design_ref": "DESIGN.md §6 C16",
     },
     "C19": {
